@@ -177,7 +177,7 @@ pub fn run(opts: &Opts) -> i32 {
                 let cseed = rng.next() % 1_000_000_007;
                 let line = run_child(
                     &["termchild".into(), format!("scenario={scenario}"), format!("seed={cseed}"), format!("path={dir}/dev/t{sh}.feox")],
-                    90,
+                    270,
                 )
                 .unwrap_or_else(|| "SPAWN-FAILED".into());
                 let last = line.lines().last().unwrap_or("").to_string();
